@@ -70,6 +70,116 @@ meta("C15", may_claim_proof=True, category="proof",
      level_note="assumed: backend contract, libc memcpy/memset contracts, errno as a global; see evidence.assumptions")
 
 
+BOUNDED_NOTE = "bounded in list length / text length as stated per group; bounded groups are labelled and never counted as proved"
+
+meta("C05",
+     explanation=("uriToString and uriToStringCharsRequired are verified through the real uriToStringEngine (route H), split by host "
+                  "kind, for every well-formed URI object within the stated bounds, both character types, owned and borrowed "
+                  "objects, charsWritten NULL or not, and EVERY capacity from -2 to length+3: the destination is a heap block of "
+                  "exactly maxChars characters and memcpy is a stub that asserts the whole destination slice writable, so any "
+                  "write beyond the stated capacity is a failed memory-safety obligation (uriToStringEngine never reads the "
+                  "destination, so not copying content cannot mask a control-flow change). Postconditions from the property: "
+                  "required == length of the RFC 3986 5.3 recomposition (spec_recompose, written from the RFC); capacity >= "
+                  "length+1 => success, length+1 reported, NUL at length; smaller => TOO_LONG, zero reported, empty string if "
+                  "capacity >= 1, destination untouched if capacity < 1; NULL handling; URI unchanged; no allocator traffic."),
+     assumptions=["total recomposed length < INT_MAX (the API reports lengths as int)", "memcpy: check-only stub (w_ok/r_ok of the whole slice)",
+                  BOUNDED_NOTE],
+     level_text=("harness-asserted contract of uriToString/uriToStringCharsRequired over the real uriToStringEngine: exact sizes, capacity "
+                 "protocol for every capacity, no write beyond the capacity; all text contents and address bytes symbolic; bounded in "
+                 "segments and component length (quick 2/2, thorough 3/3)"),
+     level_note="bounded in list length and component length; trusted: CBMC, memcpy stub, staging")
+
+meta("C04",
+     explanation=("Decided here: the recomposition half. For every well-formed URI object within the bounds, uriToString (ample "
+                  "capacity) writes exactly spec_recompose(view): character-by-character equality at a ghost index, IPv4 as "
+                  "decimal octets, IPv6 as eight groups of four lower-case hex digits, delimiters re-inserted from the presence "
+                  "flags (route H, split by host kind, both character types; memcpy = element-wise copy stub that also rejects "
+                  "sizes that are not whole characters). The parse half (the view of a parsed text is the RFC decomposition of that "
+                  "text, and IPv6 bytes equal the value written) is C01/C02's subject; the composition 'parse then recompose == "
+                  "input' additionally needs lemma L3 of DESIGN (recompose o decompose == identity on accepted words), which is "
+                  "NOT machine-checked in this version and is listed as an unchecked assumption."),
+     assumptions=["lemma L3 (spec_recompose of the RFC decomposition of an accepted word gives the word back, IPv6 canonicalised) - not machine-checked",
+                  "parse result == RFC decomposition: see C02", BOUNDED_NOTE],
+     level_text=("uriToString content == RFC 3986 5.3 recomposition of the component view, ghost-indexed, all contents symbolic, bounded in "
+                 "segments and component length; the parse half is referred to C01/C02 and lemma L3 is an unchecked assumption"),
+     level_note="only the recomposition half is decided here; see evidence.assumptions")
+
+meta("C06",
+     explanation=("uriAddBaseUriExMm is verified as a whole operation with ALL its real callees inlined (uriAddBaseUriImpl, "
+                  "uriCopyAuthority, uriCopyPath, uriMergePath, uriResolveAbsolutePathFlag, uriRemoveDotSegmentsAbsolute/Ex, "
+                  "uriFixAmbiguity, uriFixEmptyTrailSegment, uriFreeUriMembersMm, uriCompareRange) on every pair of well-formed, "
+                  "reparse-safe, delimiter-legal base/reference objects within the bounds, both option values, both character "
+                  "types, every allocation request free to fail. Oracle: spec_resolve = RFC 3986 5.2.2 on views with the 5.2.3 "
+                  "merge, segment-level dot removal that preserves rootedness, and the '/.' guard exactly where the result would be "
+                  "a host-less path starting with '//' (spec/spec_path.h, written from the RFC and the property statement). "
+                  "Postconditions: error code for a scheme-less base before anything is allocated; scheme, authority (kind, "
+                  "address bytes by value and as a private copy, user info, port), path, query, fragment equal the specified target; "
+                  "result well formed. A change inside a callee is noticed by this obligation because the callee's real body is "
+                  "verified in place."),
+     assumptions=["inputs satisfy the invariant of C07 (well formed, reparse-safe) and delimiter-level legality (harness/vuri.h vu_legal)",
+                  LIBC_ASSUME, BOUNDED_NOTE],
+     level_text=("harness-asserted contract of uriAddBaseUriExMm against spec_resolve (RFC 3986 5.2.2-5.2.4 on views), all real callees "
+                 "verified in place, all contents symbolic, every allocation may fail; bounded in segments (2x2 quick, 3x3 thorough) and "
+                 "component length"),
+     level_note="bounded in list and text length; findings beyond the quick bound (3-segment paths) are exercised in the thorough tier")
+
+meta("C10",
+     explanation=("uriRemoveBaseUriMm is verified as a whole operation with all real callees inlined (uriRemoveBaseUriImpl, "
+                  "uriEqualsAuthority, uriAppendSegment, uriCopyAuthority, uriCopyPath, uriFixAmbiguity, uriCompareRange, "
+                  "uriFreeUriMembersMm) on every pair of well-formed absolute/non-absolute source/base objects within the bounds, "
+                  "both modes, every allocation free to fail. Oracle taken from the property: spec_resolve(view(result), view(B)) "
+                  "equals view(S) after dot-segment removal on both sides and with an empty path under an authority identified "
+                  "with '/'; scheme omitted when shared and a scheme-less reference can denote S; authority omitted when user "
+                  "info, host (by kind and value) and port are all shared, else it is S's; domain-root mode => absolute path; "
+                  "differing schemes => S unchanged; specific error codes before anything is allocated. Four defects found by "
+                  "this obligation were repaired in /repo (see known_findings.txt 'fixed:'), four more are recorded as known "
+                  "findings with their input regions; outside those regions the postcondition is enforced in full."),
+     assumptions=["inputs satisfy the invariant of C07 and delimiter-level legality", LIBC_ASSUME, BOUNDED_NOTE],
+     level_text=("harness-asserted contract of uriRemoveBaseUriMm: inverse of spec_resolve, omission rules, error codes; real callees "
+                 "verified in place; all contents symbolic; bounded in segments (2x2 quick, 3x3 thorough) and component length"),
+     level_note="bounded; known findings listed in known_findings.txt are excluded by input region only")
+
+meta("C16",
+     explanation=("Unbounded part (route N: loop contracts injected mechanically into a scratch copy, CBMC's loop-contract pass): "
+                  "uriEscapeEx for input lengths up to 10^5 characters (object size, no unwinding), both flags, explicit-range and "
+                  "NUL-terminated mode, into a destination of EXACTLY 3n+1 / 6n+1 characters: never writes outside, returns its "
+                  "terminator, output length <= 3n (6n), and at a ghost output index only unreserved characters, '+' (if requested) "
+                  "or a '%' that starts a complete triplet of upper-case hex digits; termination by a decreases clause. "
+                  "uriUnescapeInPlaceEx for strings up to 10^5 characters in a block of exactly n+1 characters: write <= read <= "
+                  "terminator (so it never lengthens and never writes past the terminator, and every look-ahead stops at it), "
+                  "returns the new terminator. NULL/aliasing corner cases loop-free. Bounded part: content of unescape against "
+                  "spec_unescape and the round trip unescape(escape(s)) == s for short strings (see groups)."),
+     assumptions=["uriHexToLetter/uriHexdigToInt verified in place", BOUNDED_NOTE],
+     level_text=("loop-contract proofs (all lengths) of the bounds, terminator, charset and in-place safety clauses of uriEscapeEx / "
+                 "uriUnescapeInPlaceEx; bounded obligations for decoded content and the round trip"),
+     level_note="content/round-trip groups are bounded; trusted: CBMC loop-contract pass (non-DFCC), staging with byte-for-byte undo check")
+
+meta("C03",
+     explanation=("Every rule function of the recursive-descent parser (31 functions of src/UriParse.c) is under ONE shared interface "
+                  "contract enforced by CBMC's DFCC instrumentation with induction on the recursion (--enforce-contract-rec; all "
+                  "other callees replaced by their contracts, which are the same text and are enforced by their own obligations): "
+                  "the input is a heap object of exactly the input length (symbolic up to 10^6 characters, no unwinding), so every "
+                  "read at or beyond afterLast is a failed memory-safety obligation; no input character is in any assigns clause, so "
+                  "a write to the input is a failed frame obligation; the returned position lies in [first, afterLast]; on failure "
+                  "the error is SYNTAX with a position in [first, afterLast] or MALLOC, and pathHead/pathTail/ip4/ip6 are NULL "
+                  "(nothing left allocated); every recorded mark is NULL, the placeholder or a position of the input. The entry "
+                  "points uriParseUriExMm / uriParseSingleUriExMm are verified against these contracts (loop-free). The helper "
+                  "contracts assumed there (StopSyntax, StopMalloc, PushPathSegment, FixEmptyTrailSegment, FreeUriMembersMm) are "
+                  "discharged on the real code in route H (bounded in list length): everything released, members reset, second free "
+                  "harmless. uriParseIpFourAddress is proved loop-free for all lengths. NOT yet under contract: "
+                  "uriParseIPv6address2 (three nested loops) and the three OnExit host helpers - their contracts are assumed and "
+                  "listed as such."),
+     assumptions=["ASSUMED (not yet discharged): interface contract of uriParseIPv6address2 and of uriOnExitOwnHost2 / OwnHostUserInfo / "
+                  "OwnPortUserInfo / SegmentNzNcOrScheme2",
+                  "memory manager members obey pm_*_contract (contracts/UriParse.contracts.h)",
+                  "independence of what follows the range is a corollary (determinism + reads confined), not a separate obligation",
+                  BOUNDED_NOTE],
+     level_text=("DFCC function contracts with induction on recursion for all 31 parser rule functions and the entry points (unbounded), "
+                 "route-H obligations for the list/error-exit helpers (bounded in list length), IPv4 parser loop-free proof; the IPv6 "
+                 "scanner's contract is assumed"),
+     level_note="uriParseIPv6address2 and the OnExit helpers are assumed contracts in this version; helper groups are bounded")
+
+
 def write_evidence(prop, tier, seed, results, obmap, violations, kf_lines, wall, findings, fixed):
     m = META.get(prop, {})
     groups = []
